@@ -21,6 +21,11 @@ type Solver struct {
 	in        io.WriteCloser
 	out       *bufio.Reader
 	defined   map[int]bool
+	stack     []*Term          // persistently asserted terms (one push frame each)
+	lenAxioms map[int]string   // bitlen/bytelen term id -> axiom text
+	lensIn    map[int][]int    // memo: term id -> ids of bitlen/bytelen terms below it
+	axDone    map[int]bool
+	wideIn    map[int]bool     // memo: term id -> DAG contains a bit-vector wider than 64 bits
 	nVarsDone int
 	nUFDone   int
 	cache     map[string]string
@@ -67,7 +72,12 @@ func (s *Solver) start() {
 	if strings.Contains(s.bin, "cvc5") {
 		s.send("(set-logic ALL)\n")
 	}
-	s.send("(set-option :produce-models true)\n")
+	s.send("(set-option :produce-models true)\n(set-option :global-declarations true)\n")
+	s.stack = nil
+	s.lenAxioms = map[int]string{}
+	s.lensIn = map[int][]int{}
+	s.wideIn = map[int]bool{}
+	s.axDone = map[int]bool{}
 }
 
 func (s *Solver) Close() {
@@ -144,22 +154,24 @@ func (s *Solver) define(t *Term, sb *strings.Builder) {
 			continue
 		}
 		if x.op == "bitlen" || x.op == "bytelen" {
-			// definitional axioms (order encoding), asserted globally
+			// definitional axioms (order encoding); asserted inside every query frame that mentions the term
 			fmt.Fprintf(sb, "(declare-const t%d (_ BitVec 64))\n", x.id)
+			var ax strings.Builder
 			in := x.args[0]
 			unit, top := 1, in.w
 			if x.op == "bytelen" {
 				unit, top = 8, (in.w+7)/8
 			}
-			fmt.Fprintf(sb, "(assert (bvule t%d #x%016x))\n", x.id, top)
+			fmt.Fprintf(&ax, "(assert (bvule t%d #x%016x))\n", x.id, top)
 			for k := 0; k < top; k++ {
 				if k*unit >= in.w {
 					break
 				}
 				p := new(big.Int).Lsh(big.NewInt(1), uint(k*unit))
 				pc := s.tt.BV(p, in.w)
-				fmt.Fprintf(sb, "(assert (= (bvule t%d #x%016x) (bvult %s %s)))\n", x.id, k, ref(in), constStr(pc))
+				fmt.Fprintf(&ax, "(assert (= (bvule t%d #x%016x) (bvult %s %s)))\n", x.id, k, ref(in), constStr(pc))
 			}
+			s.lenAxioms[x.id] = ax.String()
 			continue
 		}
 		if x.op == "uf" {
@@ -225,23 +237,78 @@ const (
 	rUnknown = "unknown"
 )
 
-// Check decides satisfiability of the conjunction. If evalTerms is non-nil and
-// the result is sat, the values of those terms in the model are returned.
+// lens collects the bitlen/bytelen terms in the DAG of t (memoised).
+func (s *Solver) lens(t *Term) []int {
+	if r, ok := s.lensIn[t.id]; ok {
+		return r
+	}
+	var out []int
+	seen := map[int]bool{}
+	if t.op == "bitlen" || t.op == "bytelen" {
+		out = append(out, t.id)
+		seen[t.id] = true
+	}
+	for _, a := range t.args {
+		for _, id := range s.lens(a) {
+			if !seen[id] {
+				seen[id] = true
+				out = append(out, id)
+			}
+		}
+	}
+	s.lensIn[t.id] = out
+	return out
+}
+
+func (s *Solver) wide(t *Term) bool {
+	if r, ok := s.wideIn[t.id]; ok {
+		return r
+	}
+	r := t.w > 64
+	for _, a := range t.args {
+		if r {
+			break
+		}
+		r = s.wide(a)
+	}
+	s.wideIn[t.id] = r
+	return r
+}
+
+// Check decides satisfiability of the conjunction (non-incremental entry point).
 func (s *Solver) Check(conj []*Term, evalTerms []*Term) (string, []*big.Int) {
-	// trivial cases
+	return s.CheckInc(nil, conj, evalTerms)
+}
+
+// CheckInc decides pc ∧ extra. pc is kept asserted in the solver across calls
+// (one push frame per conjunct, longest common prefix reused). If evalTerms is
+// non-nil and the result is sat, their model values are returned.
+func (s *Solver) CheckInc(pc []*Term, extra []*Term, evalTerms []*Term) (string, []*big.Int) {
 	var live []*Term
-	for _, c := range conj {
+	for _, c := range pc {
 		if c.isFalse() {
 			return rUnsat, nil
 		}
-		if c.isTrue() {
-			continue
+		if !c.isTrue() {
+			live = append(live, c)
 		}
-		live = append(live, c)
 	}
-	ids := make([]int, len(live))
-	for i, c := range live {
-		ids[i] = c.id
+	var ex []*Term
+	for _, c := range extra {
+		if c.isFalse() {
+			return rUnsat, nil
+		}
+		if !c.isTrue() {
+			ex = append(ex, c)
+		}
+	}
+	// cache key
+	ids := make([]int, 0, len(live)+len(ex))
+	for _, c := range live {
+		ids = append(ids, c.id)
+	}
+	for _, c := range ex {
+		ids = append(ids, c.id)
 	}
 	sort.Ints(ids)
 	var kb strings.Builder
@@ -260,15 +327,72 @@ func (s *Solver) Check(conj []*Term, evalTerms []*Term) (string, []*big.Int) {
 		}
 	}
 	var sb strings.Builder
+	// queries over wide bit-vectors are faster without a deep assertion stack: use a single frame
+	isWide := false
 	for _, c := range live {
-		s.define(c, &sb)
+		if s.wide(c) {
+			isWide = true
+			break
+		}
+	}
+	if !isWide {
+		for _, c := range ex {
+			if s.wide(c) {
+				isWide = true
+				break
+			}
+		}
+	}
+	if isWide {
+		ex = append(append([]*Term{}, live...), ex...)
+		live = nil
+	}
+	// definitions first; new abstract-length terms get their axioms asserted at top level (stack emptied for that)
+	var defs strings.Builder
+	nAx := len(s.lenAxioms)
+	for _, c := range live {
+		s.define(c, &defs)
+	}
+	for _, c := range ex {
+		s.define(c, &defs)
 	}
 	for _, e := range evalTerms {
-		s.define(e, &sb)
+		s.define(e, &defs)
+	}
+	if len(s.lenAxioms) > nAx {
+		if len(s.stack) > 0 {
+			fmt.Fprintf(&sb, "(pop %d)\n", len(s.stack))
+			s.stack = nil
+		}
+		sb.WriteString(defs.String())
+		for id, ax := range s.lenAxioms {
+			if !s.axDone[id] {
+				s.axDone[id] = true
+				sb.WriteString(ax)
+			}
+		}
+	} else {
+		sb.WriteString(defs.String())
+	}
+	// align the persistent stack with pc
+	L := 0
+	for L < len(s.stack) && L < len(live) && s.stack[L] == live[L] {
+		L++
+	}
+	if L < len(s.stack) {
+		fmt.Fprintf(&sb, "(pop %d)\n", len(s.stack)-L)
+		s.stack = s.stack[:L]
+	}
+	for _, c := range live[L:] {
+		fmt.Fprintf(&sb, "(push)\n(assert %s)\n", ref(c))
+		s.stack = append(s.stack, c)
 	}
 	sb.WriteString("(push)\n")
-	for _, c := range live {
+	for _, c := range ex {
 		fmt.Fprintf(&sb, "(assert %s)\n", ref(c))
+	}
+	if isWide {
+		live = ex
 	}
 	sb.WriteString("(check-sat)\n")
 	t0 := time.Now()
@@ -278,7 +402,13 @@ func (s *Solver) Check(conj []*Term, evalTerms []*Term) (string, []*big.Int) {
 	s.solverTime += dt
 	s.queries++
 	if slowLog && dt > 500*time.Millisecond {
-		fmt.Fprintf(os.Stderr, "SLOW query %.1fs: %d asserts; last=%s\n", dt.Seconds(), len(live), live[len(live)-1].str(3))
+		lastT := "?"
+		if len(ex) > 0 {
+			lastT = ex[len(ex)-1].str(3)
+		} else if len(live) > 0 {
+			lastT = live[len(live)-1].str(3)
+		}
+		fmt.Fprintf(os.Stderr, "SLOW query %.1fs: %d+%d asserts; last=%s\n", dt.Seconds(), len(live), len(ex), lastT)
 	}
 	res := rUnknown
 	bad := false
@@ -307,7 +437,6 @@ func (s *Solver) Check(conj []*Term, evalTerms []*Term) (string, []*big.Int) {
 	var vals []*big.Int
 	if res == rSat && len(evalTerms) > 0 {
 		vals = make([]*big.Int, len(evalTerms))
-		// batch get-value
 		const batch = 200
 		for i := 0; i < len(evalTerms); i += batch {
 			j := i + batch
@@ -333,6 +462,10 @@ func (s *Solver) Check(conj []*Term, evalTerms []*Term) (string, []*big.Int) {
 		}
 	}
 	s.send("(pop)\n")
+	if bad {
+		// the solver state may be inconsistent after an error: start afresh
+		s.restart()
+	}
 	if evalTerms == nil {
 		s.cache[key] = res
 	}
